@@ -35,6 +35,13 @@ fn gen_spec(rng: &mut Rng) -> CmdSpec {
         });
         if a.takes_values() && rng.chance(1, 4) {
             a.num_args = Some((1, 2));
+        } else if a.takes_values() && rng.chance(1, 4) {
+            // an occurrence may come without a value (kept as an empty occurrence, or filled
+            // from default_missing_value)
+            a.num_args = Some((0, rng.range(1, 2)));
+            if rng.coin() {
+                a.default_missing = vec![format!("x{}dm", i)];
+            }
         }
         if a.takes_values() && rng.chance(1, 5) {
             a.delim = Some(',');
@@ -78,8 +85,14 @@ fn gen_seq(rng: &mut Rng, c: &CmdSpec, thorough: bool) -> Vec<Occ> {
         let a = &c.args[ai];
         let k = counter.entry(ai).or_insert(0);
         let vals = if a.takes_values() {
-            let (_, hi) = a.eff_num_args();
-            let n = if hi > 1 && rng.coin() { 2 } else { 1 };
+            let (lo, hi) = a.eff_num_args();
+            let n = if lo == 0 && rng.chance(1, 3) {
+                0
+            } else if hi > 1 && rng.coin() {
+                2
+            } else {
+                1
+            };
             (0..n).map(|j| format!("{}o{}v{}", a.id, *k, j)).collect()
         } else {
             vec![]
@@ -137,7 +150,11 @@ fn fold(c: &CmdSpec, seq: &[Occ]) -> Result<BTreeMap<usize, St>, usize> {
     for o in seq {
         let x = &c.args[o.arg];
         let self_over = aos || x.overrides.contains(&x.id);
-        let vals: Vec<String> = o.vals.iter().flat_map(|v| crate::model::split_tok(x, v)).collect();
+        let vals: Vec<String> = if o.vals.is_empty() && x.takes_values() {
+            x.default_missing.clone()
+        } else {
+            o.vals.iter().flat_map(|v| crate::model::split_tok(x, v)).collect()
+        };
         // the count is read before anything is removed
         let prev_count = match state.get(&o.arg) {
             Some(St::Count(n)) => *n,
@@ -246,6 +263,9 @@ pub fn case(seed: u64, st: &mut Stats) {
                                     }
                                     if v.len() > 1 {
                                         st.count("fold.append_multi");
+                                    }
+                                    if v.iter().any(|o| o.is_empty()) {
+                                        st.count("fold.empty-occurrence");
                                     }
                                 }
                                 _ => {
